@@ -160,28 +160,46 @@ Proof.
   - rewrite P. f_equal. unfold q, zleft. rewrite app_length. lia.
 Qed.
 
-(** * A closing brace inserted in a group: it closes the group early; the
-    group's own closing brace then closes the enclosing group, and so on
-    outwards through the chain of directly nested groups; the closing brace of
-    the OUTERMOST group of the chain is left over in a body that is not a
-    group's (top level or a formula), where it is rejected. *)
+(** * A closing brace inserted in a group or in the last argument of a macro:
+    it closes that construct early; the construct's own closing brace then
+    closes the enclosing one, and so on outwards through the chain of directly
+    nested groups / last arguments; the closing brace of the OUTERMOST construct
+    of the chain is left over in a body that is not a group's (top level or a
+    formula), where it is rejected. *)
 
+(** the frames a closing brace "falls through": a group, or the LAST argument of
+    a macro call when that argument is read in the same math mode as the
+    enclosing body ([im]: the enclosing body is in math mode) *)
+Definition thru (cx : context) (im : bool) (f : frame) : bool :=
+  match f with
+  | FGrp _ _ _ _ => true
+  | FMac _ _ name _ a1 _ a2 _ =>
+      match a2, mac_hole cx name (length a1) with
+      | [], Some (_, _, spc) =>
+          match a_delta spc with ADNone => true | ADEnterMath => im | ADLeaveMath => negb im end
+      | _, _ => false
+      end
+  | FMath _ _ _ _ _ => false
+  end.
 Definition is_grp (f : frame) : bool := match f with FGrp _ _ _ _ => true | _ => false end.
+Lemma is_grp_thru cx im f : is_grp f = true -> thru cx im f = true.
+Proof. destruct f; try discriminate; reflexivity. Qed.
 
 (** [early chain l1 l2 = (L, W, R)]: in the body that contains the outermost
-    group of [chain] (a chain of directly nested groups, outermost first, whose
-    innermost body is [l1 ++ l2] with the brace inserted in between), the
-    faulted text reads as the items [L], whitespace [W], a stray closing brace,
-    and then [R] *)
+    construct of [chain] (outermost first; the innermost body is [l1 ++ l2] with
+    the brace inserted in between), the faulted text reads as the items [L],
+    whitespace [W], a stray closing brace, and then [R] *)
 Fixpoint early (chain : list frame) (l1 l2 : list item) : list item * str * list item :=
   match chain with
   | [] => (l1, [], l2)
   | FGrp b ws tr a :: rest =>
       let '(L', W', R') := early rest l1 l2 in (b ++ Grp ws L' W' :: R', tr, a)
+  | FMac b ws name post a1 tr _ a :: rest =>
+      let '(L', W', R') := early rest l1 l2 in (b ++ Mac ws name post (a1 ++ [Grp [] L' W']) :: R', tr, a)
   | _ :: rest => early rest l1 l2
   end.
 
-Lemma early_text chain : forallb is_grp chain = true -> forall l1 l2,
+Lemma early_text cx im chain : forallb (thru cx im) chain = true -> forall l1 l2,
   let '(L, W, R) := early chain l1 l2 in
   lp_text (lefts chain) ++ unparse_items l1 ++ [125%N] ++ unparse_items l2 ++ rp_text chain
   = unparse_items L ++ W ++ [125%N] ++ unparse_items R.
@@ -189,65 +207,144 @@ Proof.
   induction chain as [|f rest IH]; intros G l1 l2.
   - cbn [early lefts map lp_text flat_map rp_text app]. rewrite app_nil_r. reflexivity.
   - cbn [forallb] in G. apply andb_true_iff in G. destruct G as [GF GR].
-    destruct f as [b ws tr a| |]; try discriminate. cbn [early].
-    specialize (IH GR l1 l2). destruct (early rest l1 l2) as [[L' W'] R'].
-    cbn [lefts map left_of rp_text right_text].
-    change (lp_text (LGrp b ws :: map left_of rest)) with (lf_text (LGrp b ws) ++ lp_text (lefts rest)).
-    unfold lf_text. cbn [lf_before lf_ws lf_open].
-    rewrite unparse_items_app, unparse_items_cons. cbn [unparse_item]. fold (unparse_items L').
-    rewrite <- !app_assoc. f_equal. f_equal. cbn [app]. f_equal.
-    cbn [app] in IH.
-    transitivity ((lp_text (lefts rest) ++ unparse_items l1 ++ 125%N :: unparse_items l2 ++ rp_text rest)
-                  ++ tr ++ 125%N :: unparse_items a).
-    + rewrite <- !app_assoc. cbn [app]. rewrite <- !app_assoc. reflexivity.
-    + rewrite IH. rewrite <- !app_assoc. cbn [app]. rewrite <- ?app_assoc. reflexivity.
+    specialize (IH GR l1 l2).
+    destruct f as [b ws tr a| |b ws name post a1 tr a2 a]; try discriminate; cbn [early];
+      destruct (early rest l1 l2) as [[L' W'] R']; cbn [lefts map left_of rp_text right_text].
+    + change (lp_text (LGrp b ws :: map left_of rest)) with (lf_text (LGrp b ws) ++ lp_text (lefts rest)).
+      unfold lf_text. cbn [lf_before lf_ws lf_open].
+      rewrite unparse_items_app, unparse_items_cons. cbn [unparse_item]. fold (unparse_items L').
+      rewrite <- !app_assoc. f_equal. f_equal. cbn [app]. f_equal.
+      cbn [app] in IH.
+      transitivity ((lp_text (lefts rest) ++ unparse_items l1 ++ 125%N :: unparse_items l2 ++ rp_text rest)
+                    ++ tr ++ 125%N :: unparse_items a).
+      * rewrite <- !app_assoc. cbn [app]. rewrite <- !app_assoc. reflexivity.
+      * rewrite IH. rewrite <- !app_assoc. cbn [app]. rewrite <- ?app_assoc. reflexivity.
+    + cbn [thru] in GF. destruct a2; [|discriminate].
+      change (lp_text (LMac b ws name post a1 :: map left_of rest))
+        with (lf_text (LMac b ws name post a1) ++ lp_text (lefts rest)).
+      unfold lf_text. cbn [lf_before lf_ws lf_open].
+      rewrite unparse_items_app, unparse_items_cons. cbn [unparse_item].
+      fold (unparse_items (a1 ++ [Grp [] L' W'])). rewrite unparse_items_app, unparse_items_cons.
+      cbn [unparse_item]. fold (unparse_items L').
+      cbn [unparse_items flat_map]. rewrite ?app_nil_r.
+      rewrite <- !app_assoc. f_equal. f_equal. cbn [app]. f_equal. rewrite <- !app_assoc. f_equal. f_equal. f_equal.
+      cbn [app]. f_equal. cbn [app] in IH.
+      transitivity ((lp_text (lefts rest) ++ unparse_items l1 ++ 125%N :: unparse_items l2 ++ rp_text rest)
+                    ++ tr ++ 125%N :: unparse_items a).
+      * rewrite <- !app_assoc. cbn [app]. rewrite <- !app_assoc. reflexivity.
+      * rewrite IH. rewrite <- !app_assoc. cbn [app]. rewrite <- ?app_assoc. reflexivity.
 Qed.
 
-Lemma early_ok cx hs chain : forallb is_grp chain = true -> forall l1 l2 fh,
+Lemma ok_args_last cx ps a1 G G' : forall l, ok_args cx ps (a1 ++ [G]) l = true ->
+  (forall spc, nth_error l (length a1) = Some spc ->
+     match G' with Grp [] _ _ => ok_item cx (apply_adelta ps (a_delta spc)) G' None | _ => false end = true) ->
+  ok_args cx ps (a1 ++ [G']) l = true.
+Proof.
+  induction a1 as [|a a1 IH]; intros [|spc l] H HG; try discriminate.
+  - cbn [app ok_args] in *. apply andb_true_iff in H. destruct H as [H HR].
+    apply andb_true_iff in H. destruct H as [K _]. rewrite K, HR, (HG spc eq_refl). reflexivity.
+  - cbn [app ok_args] in *. apply andb_true_iff in H. destruct H as [H1 H2]. rewrite H1.
+    apply IH; [exact H2|]. intros spc' N. apply HG. exact N.
+Qed.
+
+Lemma thru_in_math cx hs name (a1 : list item) sp l spc :
+  mac_hole cx name (length a1) = Some (sp, l, spc) ->
+  match a_delta spc with ADNone => true | ADEnterMath => f_in_math (ps_f hs) | ADLeaveMath => negb (f_in_math (ps_f hs)) end
+  = true ->
+  f_in_math (ps_f (apply_adelta hs (a_delta spc))) = f_in_math (ps_f hs).
+Proof.
+  intros _ H. destruct (a_delta spc); cbn [apply_adelta]; [reflexivity| |];
+    unfold ps_enter_math, ps_leave_math; rewrite sub_in_math.
+  - symmetry. exact H.
+  - apply negb_true_iff in H. symmetry. exact H.
+Qed.
+
+Lemma early_ok cx chain : forall hs, forallb (thru cx (f_in_math (ps_f hs))) chain = true -> forall l1 l2 fh,
   ok_items cx hs (plug chain (l1 ++ l2)) fh = true ->
   let '(L, W, R) := early chain l1 l2 in
   ok_items cx hs L (hd_error (W ++ [125%N])) = true /\ ws_ok W = true /\ ok_items cx hs R fh = true.
 Proof.
-  induction chain as [|f rest IH]; intros G l1 l2 fh H.
+  induction chain as [|f rest IH]; intros hs G l1 l2 fh H.
   - cbn [early plug app] in *. rewrite ok_items_app in H. apply andb_true_iff in H. destruct H as [H1 H2].
     split; [|split; [reflexivity|exact H2]].
     eapply ok_items_follow; [exact inertf_125 | exact H1].
   - cbn [forallb] in G. apply andb_true_iff in G. destruct G as [GF GR].
-    destruct f as [b ws tr a| |]; try discriminate. cbn [early plug plug_frame] in *.
-    rewrite ok_items_app in H. apply andb_true_iff in H. destruct H as [HB HX].
-    rewrite ok_items_cons in HX. apply andb_true_iff in HX. destruct HX as [HX HA].
-    rewrite ok_item_grp in HX. apply andb_true_iff in HX. destruct HX as [HX OKB].
-    apply andb_true_iff in HX. destruct HX as [W Wt].
-    specialize (IH GR l1 l2 _ OKB). destruct (early rest l1 l2) as [[L' W'] R'].
-    destruct IH as (OKL & WW & OKR). split; [|split; [exact Wt | exact HA]].
-    rewrite ok_items_app. apply andb_true_iff. split.
-    + rewrite <- HB. f_equal. rewrite !unparse_items_cons. cbn [unparse_item].
-      destruct ws; reflexivity.
-    + rewrite ok_items_cons. apply andb_true_iff. split.
-      * rewrite ok_item_grp, W, WW, OKL. reflexivity.
-      * exact OKR.
+    destruct f as [b ws tr a| |b ws name post a1 tr a2 a]; try discriminate; cbn [early plug plug_frame] in *.
+    + rewrite ok_items_app in H. apply andb_true_iff in H. destruct H as [HB HX].
+      rewrite ok_items_cons in HX. apply andb_true_iff in HX. destruct HX as [HX HA].
+      rewrite ok_item_grp in HX. apply andb_true_iff in HX. destruct HX as [HX OKB].
+      apply andb_true_iff in HX. destruct HX as [W Wt].
+      specialize (IH hs GR l1 l2 _ OKB). destruct (early rest l1 l2) as [[L' W'] R'].
+      destruct IH as (OKL & WW & OKR). split; [|split; [exact Wt | exact HA]].
+      rewrite ok_items_app. apply andb_true_iff. split.
+      * rewrite <- HB. apply (f_equal (ok_items cx hs b)). rewrite !unparse_items_cons. cbn [unparse_item].
+        destruct ws; cbn [app hd_error]; reflexivity.
+      * rewrite ok_items_cons. apply andb_true_iff. split.
+        -- rewrite ok_item_grp, W, WW, OKL. reflexivity.
+        -- exact OKR.
+    + cbn [thru] in GF. destruct a2; [|discriminate].
+      rewrite ok_items_app in H. apply andb_true_iff in H. destruct H as [HB HX].
+      rewrite ok_items_cons in HX. apply andb_true_iff in HX. destruct HX as [HX HA].
+      destruct (mac_hole cx name (length a1)) as [[[sp l] spc]|] eqn:MH; [|discriminate].
+      pose proof (thru_in_math cx hs name a1 sp l spc MH GF) as IM.
+      unfold mac_hole in MH.
+      destruct (get_macro_spec cx name) as [sp0|] eqn:GS; [|discriminate].
+      destruct (sp_args sp0) as [l0|lk] eqn:SA; [|discriminate].
+      destruct (nth_error l0 (length a1)) as [spc0|] eqn:NTH; [|discriminate].
+      injection MH as -> -> ->.
+      rewrite (ok_item_mac cx hs ws name post _ _ sp l GS SA) in HX.
+      apply andb_true_iff in HX. destruct HX as [HX OKA].
+      apply andb_true_iff in OKA. destruct OKA as [OKA FO].
+      apply andb_true_iff in HX. destruct HX as [HX NM].
+      apply andb_true_iff in HX. destruct HX as [W Wp].
+      destruct (ok_args_split cx hs a1 _ [] l OKA) as (spc' & NTH' & OKA1 & KD & OKG).
+      rewrite NTH in NTH'. injection NTH' as <-.
+      set (hs' := apply_adelta hs (a_delta spc)) in *.
+      rewrite ok_item_grp in OKG. apply andb_true_iff in OKG. destruct OKG as [OKG1 OKB].
+      apply andb_true_iff in OKG1. destruct OKG1 as [_ Wt].
+      rewrite <- IM in GR.
+      specialize (IH hs' GR l1 l2 _ OKB). destruct (early rest l1 l2) as [[L' W'] R'].
+      destruct IH as (OKL & WW & OKR). rewrite (ok_items_state cx hs' hs R' _ IM) in OKR.
+      split; [|split; [exact Wt | exact HA]].
+      assert (OKA' : ok_args cx hs (a1 ++ [Grp [] L' W']) l = true).
+      { apply (ok_args_last cx hs a1 _ _ l OKA). intros spc' N. rewrite NTH in N. injection N as <-.
+        fold hs'. rewrite ok_item_grp, WW, OKL. reflexivity. }
+      rewrite ok_items_app. apply andb_true_iff. split.
+      * rewrite <- HB. apply (f_equal (ok_items cx hs b)). rewrite !unparse_items_cons. cbn [unparse_item].
+        destruct ws; cbn [app hd_error]; reflexivity.
+      * rewrite ok_items_cons. apply andb_true_iff. split; [|exact OKR].
+        rewrite (ok_item_mac cx hs ws name post _ _ sp l GS SA), W, Wp, NM, OKA'. cbn [andb].
+        destruct (ok_args_hd cx hs _ l OKA ltac:(destruct a1; discriminate)) as [r E].
+        destruct (ok_args_hd cx hs _ l OKA' ltac:(destruct a1; discriminate)) as [r' E'].
+        rewrite E in FO. rewrite E'. cbn [app hd_error] in FO |- *. exact FO.
 Qed.
 
-
-Lemma early_hd chain l1 l2 (x : str) : chain <> [] -> forallb is_grp chain = true ->
+Lemma early_hd cx im chain l1 l2 (x : str) : chain <> [] -> forallb (thru cx im) chain = true ->
   hd_error (unparse_items (fst (fst (early chain l1 l2))) ++ x) = hd_error (lp_text (lefts chain)).
 Proof.
   intros NE G. destruct chain as [|f rest]; [congruence|].
   cbn [forallb] in G. apply andb_true_iff in G. destruct G as [GF _].
-  destruct f as [b ws tr a| |]; try discriminate. cbn [early].
-  destruct (early rest l1 l2) as [[L' W'] R']. cbn [fst lefts map left_of].
-  rewrite <- (lp_text_hd (LGrp b ws) (map left_of rest) []) at 1. rewrite app_nil_r.
-  change (lp_text (LGrp b ws :: map left_of rest)) with (lf_text (LGrp b ws) ++ lp_text (map left_of rest)).
-  unfold lf_text. cbn [lf_before lf_ws lf_open].
-  rewrite unparse_items_app, unparse_items_cons. cbn [unparse_item].
-  destruct (unparse_items b); [|reflexivity]. cbn [app]. destruct ws; reflexivity.
+  destruct f as [b ws tr a| |b ws name post a1 tr a2 a]; try discriminate; cbn [early];
+    destruct (early rest l1 l2) as [[L' W'] R']; cbn [fst lefts map left_of].
+  - rewrite <- (lp_text_hd (LGrp b ws) (map left_of rest) []) at 1. rewrite app_nil_r.
+    change (lp_text (LGrp b ws :: map left_of rest)) with (lf_text (LGrp b ws) ++ lp_text (map left_of rest)).
+    unfold lf_text. cbn [lf_before lf_ws lf_open].
+    rewrite unparse_items_app, unparse_items_cons. cbn [unparse_item].
+    destruct (unparse_items b); [|reflexivity]. cbn [app]. destruct ws; reflexivity.
+  - rewrite <- (lp_text_hd (LMac b ws name post a1) (map left_of rest) []) at 1. rewrite app_nil_r.
+    change (lp_text (LMac b ws name post a1 :: map left_of rest))
+      with (lf_text (LMac b ws name post a1) ++ lp_text (map left_of rest)).
+    unfold lf_text. cbn [lf_before lf_ws lf_open].
+    rewrite unparse_items_app, unparse_items_cons. cbn [unparse_item].
+    destruct (unparse_items b); [|reflexivity]. cbn [app]. destruct ws; reflexivity.
 Qed.
 
 (** [outer] is the path down to the body that holds the outermost group of
     [chain]; that body is not a group's or macro argument's
     ([closes_hole (lefts outer) SBrace = false]: top level or a formula) *)
 Theorem fault_closing_brace_chain cx outer chain l1 l2 dtr :
-  forallb is_grp chain = true -> chain <> [] -> closes_hole (lefts outer) SBrace = false ->
+  forallb (thru cx (f_in_math (ps_f (lp_state cx (walker_state cx) (lefts outer))))) chain = true ->
+  chain <> [] -> closes_hole (lefts outer) SBrace = false ->
   ok_doc cx (zdoc (outer ++ chain) l1 l2 dtr) = true ->
   let '(L, W, R) := early chain l1 l2 in
   let q := length (lp_text (lefts outer)) + length (unparse_items L) + length W in
@@ -259,12 +356,12 @@ Proof.
   intros G NE CH OKD. unfold ok_doc, ok_doc_in, zdoc in OKD. cbn [d_items d_trail] in OKD.
   apply andb_true_iff in OKD. destruct OKD as [OKD _]. rewrite plug_app in OKD.
   destruct (ok_plug cx outer _ _ _ OKD) as (OKP & DLb & fh' & OKH).
-  pose proof (early_ok cx _ chain G l1 l2 fh' OKH) as EO.
-  pose proof (early_text chain G l1 l2) as ET.
-  pose proof (early_hd chain l1 l2) as EH.
+  pose proof (early_ok cx chain _ G l1 l2 fh' OKH) as EO.
+  pose proof (early_text cx _ chain G l1 l2) as ET.
+  pose proof (fun x => early_hd cx _ chain l1 l2 x NE G) as EH.
   destruct (early chain l1 l2) as [[L W] R]. cbn [fst] in EH. destruct EO as (OKL & WW & _).
   assert (ND : last_dollar outer = true -> not_dollar (hd_error (unparse_items L ++ W ++ stray_text SBrace))).
-  { intros LD. rewrite (EH _ NE G). specialize (DLb LD). rewrite unparse_plug in DLb.
+  { intros LD. rewrite (EH _). specialize (DLb LD). rewrite unparse_plug in DLb.
     destruct chain as [|f0 r0]; [congruence|]. cbn [lefts map] in *. rewrite lp_text_hd in DLb. apply DLb.
     intros E. apply app_eq_nil in E. destruct E as [E _]. exact (lp_text_nonempty _ _ E). }
   destruct (fault_closing cx (lefts outer) L W SBrace (unparse_items R ++ rp_text outer ++ dtr)
